@@ -252,7 +252,7 @@ class FnView:
 
     @classmethod
     def get(cls, prog, fn):
-        k = (id(prog), fn.key)
+        k = (id(prog), fn.key, id(fn))
         if k not in cls._cache:
             cls._cache[k] = FnView(prog, fn)
         return cls._cache[k]
@@ -374,6 +374,13 @@ def ok_values(f, v):
     return out
 
 
+class _NoFn:
+    key = None
+
+
+_NOFN = _NoFn()
+
+
 def ok_of(prog, T, depth=0):
     """Ok payload(s) of a Result-valued term returned as it is: `x.map(|v| f(v))` -> f(ok(x)); `x.and_then(|v| g(v))` -> the Ok
     payloads of g(ok(x)); anything else -> its Ok payload"""
@@ -391,6 +398,20 @@ def ok_of(prog, T, depth=0):
                     continue
                 out += ok_of(prog, a, depth + 1)
             return out
+    # a private helper no rule names, in tail position: its own Ok payloads, seen with the call's arguments
+    H, Y = helper_call(prog, _NOFN, T)
+    if H is not None and depth < 3 and (H.j.get("output") or "").startswith("core::result::Result<"):
+        from .inline import vocabulary
+        if H.name not in vocabulary() and H.j.get("vis") != "Public" and not H.j.get("reachable") and not H.j.get("impl_trait"):
+            hv = FnView(prog, H, {i + 1: a for i, a in enumerate(Y[2])}, (Y[3],))
+            out = []
+            for (b, k, rv) in ret_writes(H):
+                if k == "ok":
+                    out.append(hv.cx.operand(rv["ops"][0]))
+                elif k == "call":
+                    out += ok_of(prog, hv.cx.call(rv, hv.cx.site(b)), depth + 1)
+            if out:
+                return out
     return [okval(T)]
 
 
